@@ -20,16 +20,16 @@ func init() { register("C09", checkC09) }
 
 // nilCtx carries the state of the nil-discipline analysis (R-NIL).
 type nilCtx struct {
-	cx       *Ctx
-	vf       *VFlow
-	scope    map[*ssa.Function]bool
-	memo     map[ssa.Value]int // 0 unknown, 1 in progress, 2 may be nil, 3 not nil
-	why      map[ssa.Value]string
-	cfgInvOK bool                              // constructor invariant: a constructed Provider's Config has a non-nil IDPConfig
-	spInvOK  bool                              // constructor invariant: registered providers have Metadata and Metadata.SPSSODescriptor
-	chainFx  map[*ssa.Function]map[string]bool // closure -> access paths known non-nil on entry (facts of earlier steps)
-	callers  map[*ssa.Function][]ssa.CallInstruction
-	tested   map[string]string // typed path of a configuration field -> where it is compared with nil
+	cx          *Ctx
+	vf          *VFlow
+	scope       map[*ssa.Function]bool
+	memo        map[ssa.Value]int // 0 unknown, 1 in progress, 2 may be nil, 3 not nil
+	why         map[ssa.Value]string
+	cfgInvOK    bool                              // constructor invariant: a constructed Provider's Config has a non-nil IDPConfig
+	spInvOK     bool                              // constructor invariant: registered providers have Metadata and Metadata.SPSSODescriptor
+	chainFx     map[*ssa.Function]map[string]bool // closure -> access paths known non-nil on entry (facts of earlier steps)
+	callers     map[*ssa.Function][]ssa.CallInstruction
+	established map[string]bool // "<owner>.field" of configuration fields a constructor leaves non-nil on every success path
 }
 
 func isXMLModelStruct(t types.Type) bool {
@@ -64,41 +64,6 @@ func (nc *nilCtx) mayBeNil(v ssa.Value) bool {
 		nc.memo[v] = 3
 	}
 	return res
-}
-
-// nilTested: typed access paths of configuration / provider fields that some function in scope compares with nil.
-func (nc *nilCtx) nilTested() map[string]string {
-	if nc.tested != nil {
-		return nc.tested
-	}
-	nc.tested = map[string]string{}
-	fx := nc.cx.Fx
-	for f := range nc.scope {
-		for _, b := range f.Blocks {
-			for _, in := range b.Instrs {
-				bo, ok := in.(*ssa.BinOp)
-				if !ok {
-					continue
-				}
-				x, _, isNT := nilTest(bo)
-				if !isNT || isErrorType(x.Type()) {
-					continue
-				}
-				ld, isLd := x.(*ssa.UnOp)
-				if !isLd {
-					continue
-				}
-				if _, isFA := ld.X.(*ssa.FieldAddr); !isFA {
-					continue
-				}
-				t := fx.T(fx.path(x))
-				if strings.HasPrefix(t, "<") && nc.tested[t] == "" {
-					nc.tested[t] = nc.cx.W.InstrPos(bo)
-				}
-			}
-		}
-	}
-	return nc.tested
 }
 
 func (nc *nilCtx) note(v ssa.Value, s string) bool {
@@ -181,12 +146,14 @@ func (nc *nilCtx) mayBeNil0(v ssa.Value) bool {
 				}
 				return nc.note(v, fmt.Sprintf("optional element/record field %s.%s of an object filled from outside (absent element => nil)", owner, fv.Name()))
 			}
-			if outside && !constructed && !isXMLModelStruct(a.X.Type()) && isPtrLike(x.Type()) {
-				// a field of a configuration / provider object: taken to be set up by the constructors - unless the
-				// code itself says otherwise by testing the very same field for nil somewhere on a request path
-				// (two beliefs about one pointer: the unguarded dereference is the wrong one)
-				if at := nc.nilTested()[fx.T(fx.path(v))]; at != "" && !(nc.cfgInvOK && strings.HasSuffix(fx.T(fx.path(v)), "<provider.Config>.IDPConfig")) {
-					return nc.note(v, fmt.Sprintf("%s.%s, which the code tests for nil at %s (so it can be nil)", owner, fv.Name(), at))
+			if outside && !constructed && !isXMLModelStruct(a.X.Type()) {
+				// optional configuration: a pointer field of one of the module's *Config structs is nil when the
+				// embedding application leaves it out - unless a constructor invariant (R-NIL-INV) establishes it
+				if _, isPtr := x.Type().Underlying().(*types.Pointer); isPtr && strings.HasPrefix(owner, "provider.") && strings.HasSuffix(owner, "Config") {
+					tk := "<" + owner + ">." + fv.Name()
+					if !(nc.cfgInvOK && tk == "<provider.Config>.IDPConfig") && !nc.established[tk] {
+						return nc.note(v, fmt.Sprintf("optional configuration field %s.%s (nil when not configured; no constructor invariant establishes it)", owner, fv.Name()))
+					}
 				}
 			}
 			if constructed && isPtrLike(x.Type()) && !nc.storeDominatesLoad(a, x) {
@@ -845,8 +812,9 @@ func (nc *nilCtx) checkChainAssignments(r *Report) {
 // without a test. On every path on which NewIdentityProvider / NewProvider returns a provider, the value such a
 // field holds at the return must be known non-nil: a fresh object, the result of a library constructor whose error
 // was found nil, or a configured value found non-nil on that path.
-func (cx *Ctx) checkConstructedNonNil(r *Report) {
+func (cx *Ctx) checkConstructedNonNil(r *Report) map[string]bool {
 	w, fx := cx.W, cx.Fx
+	established := map[string]bool{}
 	for _, ck := range []string{"provider.NewIdentityProvider", "provider.NewProvider"} {
 		fn := w.Func(ck)
 		if fn == nil {
@@ -935,8 +903,12 @@ func (cx *Ctx) checkConstructedNonNil(r *Report) {
 				continue // filled exactly once on every path: plain initialisation, nothing to establish
 			}
 			r.Check(bad == "" && nSucc > 0, "R-NIL-INV", ck+":"+g.base+"."+g.field, w.FnPos(fn), "non-nil on every path that returns a provider", bad)
+			if bad == "" && nSucc > 0 {
+				established[fx.T(g.base)+"."+g.field] = true
+			}
 		}
 	}
+	return established
 }
 
 func checkC09(cx *Ctx, r *Report) {
@@ -966,7 +938,7 @@ func checkC09(cx *Ctx, r *Report) {
 	// constructor invariant of registered providers
 	nc.spInvOK = cx.checkSPInvariant(r)
 	nc.cfgInvOK = cx.checkConfigInvariant(r)
-	cx.checkConstructedNonNil(r)
+	nc.established = cx.checkConstructedNonNil(r)
 	nc.computeChainFacts(r)
 	nc.checkChainAssignments(r)
 	// sibling results of a failed call are not used: the failing branch leaves (R-ERR; R-NIL relies on it when it
